@@ -849,15 +849,48 @@ Qed.
 Lemma hook_lock_context_ok_true : hook_lock_context_ok = true.
 Proof. vm_compute. reflexivity. Qed.
 
+Lemma hooks_ctx_ok_priv_at : forall tr priv, hooks_ctx_ok priv tr = true ->
+  forall p t, In (p, t) (priv_at priv tr) -> is_hook_call (te_ev t) = true ->
+    te_held t = [] \/ (In "w" (te_held t) /\ p = true).
+Proof.
+  induction tr as [|t0 r IH]; intros priv Hok p t Hin Hh; cbn [priv_at] in Hin.
+  - destruct Hin.
+  - cbn [hooks_ctx_ok] in Hok.
+    destruct (String.eqb (te_ev t0) "call:grantPrivilege") eqn:Eg.
+    + destruct Hin as [Heq|Hin].
+      * inversion Heq; subst. apply String.eqb_eq in Eg. rewrite Eg in Hh. vm_compute in Hh. discriminate.
+      * exact (IH true Hok p t Hin Hh).
+    + destruct (String.eqb (te_ev t0) "call:revokePrivilege") eqn:Er.
+      * destruct Hin as [Heq|Hin].
+        -- inversion Heq; subst. apply String.eqb_eq in Er. rewrite Er in Hh. vm_compute in Hh. discriminate.
+        -- exact (IH false Hok p t Hin Hh).
+      * apply andb_prop in Hok. destruct Hok as [H1 H2].
+        destruct Hin as [Heq|Hin].
+        -- inversion Heq; subst. rewrite Hh in H1. cbn [negb orb] in H1.
+           apply orb_prop in H1. destruct H1 as [H1|H1].
+           ++ left. unfold no_lock in H1. destruct (te_held t); [reflexivity|discriminate].
+           ++ right. apply andb_prop in H1. destruct H1 as [H1 H3]. split; [apply mem_str_In; exact H1|exact H3].
+        -- exact (IH priv H2 p t Hin Hh).
+Qed.
+
 Theorem hook_lock_context : hook_lock_context_statement.
 Proof.
-  intros m evs Hin Htop t Ht Hh.
+  intros m evs Hin Htop p t Hpt Hh.
   pose proof hook_lock_context_ok_true as H. unfold hook_lock_context_ok in H. rewrite forallb_forall in H.
   specialize (H (m, evs) (in_top m evs Hin Htop)). cbn [fst snd] in H.
-  rewrite forallb_forall in H. specialize (H t Ht). rewrite Hh in H. cbn [negb orb] in H.
-  destruct (String.eqb (before_dot m) "IndexedState").
-  - apply mem_str_In. exact H.
-  - unfold no_lock in H. destruct (te_held t); [reflexivity|discriminate].
+  exact (hooks_ctx_ok_priv_at _ _ H p t Hpt Hh).
+Qed.
+
+Theorem hook_contexts_both_occur : hook_contexts_both_occur_statement.
+Proof.
+  split.
+  - exists "LinearState.Add". eexists. exists false. eexists.
+    split; [vm_compute; tauto|]. split; [reflexivity|]. split; [vm_compute; left; reflexivity|].
+    split; reflexivity.
+  - exists "LinearState.Clear". eexists. exists true. eexists.
+    split; [vm_compute; tauto|]. split; [reflexivity|].
+    split; [vm_compute; right; right; right; left; reflexivity|].
+    split; [reflexivity|]. split; [vm_compute; tauto|reflexivity].
 Qed.
 
 Theorem write_methods_take_write_lock : write_methods_take_write_lock_statement.
@@ -1283,6 +1316,7 @@ Print Assumptions fact_map_accesses_are_locked.
 Print Assumptions locks_balanced.
 Print Assumptions fuel_enough_true.
 Print Assumptions hook_lock_context.
+Print Assumptions hook_contexts_both_occur.
 Print Assumptions write_methods_take_write_lock.
 Print Assumptions mutations_hold_write_lock.
 Print Assumptions readers_purge_under_write_lock.
